@@ -78,6 +78,11 @@ pub broadcast proof fn ax_pow_ge1_nonpos(x: real, y: real)
     requires x >= 1real, y <= 0real
     ensures 0real < #[trigger] pow_r(x, y), pow_r(x, y) <= 1real {}
 
+/// x >= 1 ==> log2 x >= 0 ; x <= 2^64 ==> log2 x <= 64
+#[verifier::external_body]
+pub broadcast proof fn ax_log2(x: real)
+    ensures x >= 1real ==> #[trigger] log2_r(x) >= 0real, (0real < x && x <= 18446744073709551616real) ==> log2_r(x) <= 64real {}
+
 pub broadcast group group_real_axioms {
     ax_exp_pos, ax_exp_mono, ax_exp_zero, ax_ln_exp, ax_exp_ln, ax_sqrt,
 }
